@@ -25,7 +25,15 @@ MCSinkPats  == { <<Tok("lit", <<47>>)>>,                                        
                  \*  /a/(?P<id>\d+)(/REST)?$   (REST = dot star)  a trailing unnamed group that takes part for some paths only
                  <<Tok("lit", <<47, 97, 47>>), Tok("digits", <<105, 100>>), Tok("optrest", <<>>)>>,
                  \*  /(a|b)/(\d+)              unnamed groups only: no keyword arguments
-                 <<Tok("lit", <<47>>), Tok("ualt", <<97, 124, 98>>), Tok("lit", <<47>>), Tok("udigits", <<>>)>> }
+                 <<Tok("lit", <<47>>), Tok("ualt", <<97, 124, 98>>), Tok("lit", <<47>>), Tok("udigits", <<>>)>>,
+                 \*  /a(?:/(?P<id>\d+))?/(?P<x>[^/]+)   a named group inside an optional non-capturing group
+                 <<Tok("lit", <<47, 97>>), Tok("optndig", <<47, 124, 105, 100>>), Tok("lit", <<47>>), Tok("seg", <<120>>)>>,
+                 \*  /a(/(?P<id>\d+))?                 ... inside an optional capturing group, trailing
+                 <<Tok("lit", <<47, 97>>), Tok("optcdig", <<47, 124, 105, 100>>)>> }
+(* the re-registration instance: every 3-call history over these (A, B, A with an overlapping B in between) *)
+RSinkPats   == { <<Tok("lit", <<47>>)>>, <<Tok("lit", <<47, 97>>)>>, <<Tok("lit", <<47, 97, 47>>), Tok("digits", <<105, 100>>)>> }
+RStaticPrefixes == { <<47, 97>> }
+StaticSpellings == {[prefix |-> p, sl |-> b] : p \in StaticPrefixes, b \in BOOLEAN} \ {[prefix |-> <<47, 97, 47, 98>>, sl |-> TRUE]}
 MCStaticPrefixes == { <<47, 97>>, <<47, 97, 47, 98>> }                            \*  /a   /a/b
 
 (* resources: responders without suffix / with suffix "s" *)
@@ -52,11 +60,14 @@ MCPaths == {PathOf(ss) : ss \in UNION {[1..k -> Segs] : k \in 1..2}}
                   PathOf(<<<<>>, <<97>>, <<98>>>>) }      \*  //a/b
 (* reduced pools for the quick exhaustive two-call export *)
 QTemplates == { <<Lit(<<97>>), Var(<<120>>)>>, <<Lit(<<97>>), Lit(<<98>>)>>, <<Var(<<121>>)>> }    \*  /a/{x}  /a/b  /{y}
-QMethods   == {"GET", "OPTIONS", "FOO"}
+QMethods   == {"GET", "OPTIONS"}
 QPaths     == { PathOf(<<<<97>>>>), PathOf(<<<<98>>>>), PathOf(<<<<97, 98>>>>), PathOf(<<<<>>>>),
                 PathOf(<<<<97>>, <<98>>>>), PathOf(<<<<97>>, <<49>>>>), PathOf(<<<<97>>, <<>>>>), PathOf(<<<<49>>, <<98>>>>),
                 PathOf(<<<<97, 98>>, <<98>>>>), PathOf(<<<<97>>, <<98>>, <<49>>>>), PathOf(<<<<97>>, <<49>>, <<98>>>>),
                 PathOf(<<<<97>>, <<98>>, <<>>>>), PathOf(<<<<97>>, <<>>, <<98>>>>), PathOf(<<<<>>, <<97>>, <<98>>>>) }
+RMethods == {"GET", "OPTIONS"}
+RPaths   == { PathOf(<<<<97>>>>), PathOf(<<<<97>>, <<>>>>), PathOf(<<<<97>>, <<49>>>>), PathOf(<<<<97>>, <<98>>>>),
+              PathOf(<<<<97>>, <<49>>, <<98>>>>), PathOf(<<<<97, 98>>>>), PathOf(<<<<98>>>>), PathOf(<<<<97>>, <<>>, <<98>>>>) }
 OneTemplate == { <<Lit(<<97>>), Var(<<120>>)>> }     \*  /a/{x}
 FewPaths == { PathOf(<<<<97>>>>), PathOf(<<<<97>>, <<98>>>>), PathOf(<<<<98>>>>) }
 
@@ -85,7 +96,7 @@ XInit == Init /\ h = <<>>
 XAddRoute         == (\E t \in Templates, k \in ResKinds, s \in {"", "s"} : AddRoute(t, k, s)) /\ Keep
 XAddRouteRejected == (\E t \in Templates, k \in ResKinds, s \in {"", "s"} : AddRouteRejected(t, k, s)) /\ Keep
 XAddSink          == (\E pat \in SinkPats : AddSink(pat)) /\ Keep
-XAddStatic        == (\E pre \in StaticPrefixes, fb \in BOOLEAN : AddStatic(pre, fb)) /\ Keep
+XAddStatic        == (\E sp \in StaticSpellings, fb \in BOOLEAN : AddStaticSpelled(sp.prefix, fb, sp.sl)) /\ Keep
 XNext == XAddRoute \/ XAddRouteRejected \/ XAddSink \/ XAddStatic
 XNextRoutes == XAddRoute \/ XAddRouteRejected
 
@@ -93,9 +104,10 @@ AInit == Init /\ h = <<>>
 AAddRoute         == (\E t \in Templates, k \in ResKinds, s \in {"", "s"} : AddRoute(t, k, s)) /\ Log
 AAddRouteRejected == (\E t \in Templates, k \in ResKinds, s \in {"", "s"} : AddRouteRejected(t, k, s)) /\ Log
 AAddSink          == (\E pat \in SinkPats : AddSink(pat)) /\ Log
-AAddStatic        == (\E pre \in StaticPrefixes, fb \in BOOLEAN : AddStatic(pre, fb)) /\ Log
+AAddStatic        == (\E sp \in StaticSpellings, fb \in BOOLEAN : AddStaticSpelled(sp.prefix, fb, sp.sl)) /\ Log
 ANext == AAddRoute \/ AAddRouteRejected \/ AAddSink \/ AAddStatic
 ANextRoutes == AAddRoute \/ AAddRouteRejected
+ANextFallbacks == AAddSink \/ AAddStatic
 
 (* behaviour export: one JSON object per configuration: how to build it + the whole decision table,
    one row <<method, path, decision, status, who, id, suffix, kwargs, hasAllow, allow>> per request *)
